@@ -89,6 +89,10 @@ def _processed_fields(arm_body: List[ast.stmt], subj: str, emitters: Set[str]) -
                 else:
                     out["*"] = s
     for s in A.walk_no_nested(ast.Module(arm_body, [])):
+        # for x in node.<field>: ... emitting(x...) ...   (children processed through a loop)
+        if isinstance(s, ast.For) and isinstance(s.iter, ast.Attribute) and A.unparse(s.iter.value) == subj:
+            if any(isinstance(c, ast.Call) and isinstance(c.func, ast.Attribute) and c.func.attr in emitters for c in ast.walk(s)):
+                out.setdefault(s.iter.attr, s)
         if isinstance(s, ast.Assign):
             for t in s.targets:
                 if isinstance(t, ast.Attribute) and A.unparse(t.value) == subj:
@@ -126,7 +130,12 @@ def lower1(ctx) -> List[Ob]:
                 continue
             if "*" in proc:
                 proc = {f: proc["*"] for f in order}
+            in_order = [f for f in order if f in proc]
+            by_line = sorted((f for f in proc if f in order), key=lambda f: A.lineno(proc[f]))
+            key = f"arm ast.{cls}: hoists {','.join(by_line)}"
             hazards = []
+            if by_line != in_order and "*" not in _processed_fields(arm.body, subj, em):
+                hazards.append(f"children are hoisted in the order {by_line} but Python evaluates them in the order {in_order}")
             for f in proc:
                 if f in CONDITIONAL.get(cls, ()):
                     hazards.append(f"'{f}' of ast.{cls} is evaluated only conditionally, but its statements are hoisted into the enclosing block and run unconditionally")
